@@ -733,11 +733,15 @@ func coordinate(spec *Spec, prop, tier string, n int, seed int64, params map[str
 		fmt.Printf(" caps=%q", tot.Caps)
 	}
 	fmt.Println()
-	if harnessErr {
-		return 2
-	}
+	// a reported violation decides the exit status even when, next to it, a
+	// worker stalled or died in a way that could not be attributed (typical for
+	// a change that makes the code under test loop: some stalls reproduce as
+	// hang violations, others only in the context of their history)
 	if len(unknown) > 0 {
 		return 1
+	}
+	if harnessErr {
+		return 2
 	}
 	return 0
 }
